@@ -175,6 +175,7 @@ func (verifNoAcks) GetAckFrame(protocol.EncryptionLevel, monotime.Time, bool) *w
 // nothing: a sealer that does not encrypt, a counting packet number manager, no other frames.
 type VerifFlightPacker struct {
 	up      *uPacketPacker
+	ini     *initialCryptoStream
 	maxSize protocol.ByteCount
 	// the ackhandler.Frames registered for each packed Initial packet, as the packer handed them over
 	sent [][]ackhandler.Frame
@@ -182,17 +183,40 @@ type VerifFlightPacker struct {
 }
 
 func VerifNewFlightPacker(fb QUICFrameBuilder, clientHello []byte, packetSizes []int, maxSize int) *VerifFlightPacker {
+	plans := make([]InitialPacketPlan, len(packetSizes))
+	for i, s := range packetSizes {
+		plans[i] = InitialPacketPlan{PacketSize: s}
+	}
+	return verifNewPacker(fb, clientHello, plans, maxSize)
+}
+
+// VerifNewDatagramPacker: the same real packer for the per-datagram path (nil / QUICFrames /
+// QUICRandomFrames / QUICMultiDatagramFrames builder); InitialPackets given by their CryptoLength.
+func VerifNewDatagramPacker(fb QUICFrameBuilder, clientHello []byte, cryptoLengths []int, maxSize int) *VerifFlightPacker {
+	plans := make([]InitialPacketPlan, len(cryptoLengths))
+	for i, c := range cryptoLengths {
+		plans[i] = InitialPacketPlan{CryptoLength: c}
+	}
+	return verifNewPacker(fb, clientHello, plans, maxSize)
+}
+
+// HdrLen is the Initial long header length as PackCoalescedPacket / maybeGetCryptoPacket compute it.
+func (f *VerifFlightPacker) HdrLen() int {
+	return int(f.up.getLongHeader(protocol.EncryptionInitial, protocol.Version1).GetLength(protocol.Version1))
+}
+
+// Write appends more handshake data to the Initial CRYPTO stream.
+func (f *VerifFlightPacker) Write(p []byte) { _, _ = f.ini.Write(p) }
+
+func verifNewPacker(fb QUICFrameBuilder, clientHello []byte, plans []InitialPacketPlan, maxSize int) *VerifFlightPacker {
 	ini := newInitialCryptoStream(true)
 	ini.DisableScrambling()
 	_, _ = ini.Write(clientHello)
 	destID := protocol.ParseConnectionID([]byte{1, 2, 3, 4, 5, 6, 7, 8})
 	pp := newPacketPacker(protocol.ConnectionID{}, func() protocol.ConnectionID { return destID }, ini, newCryptoStream(),
 		&verifPNManager{next: 1}, newRetransmissionQueue(), verifSealingManager{}, verifNoFrames{}, verifNoAcks{}, nil, protocol.PerspectiveClient)
-	spec := &QUICSpec{InitialPacketSpec: InitialPacketSpec{FrameBuilder: fb}}
-	for _, s := range packetSizes {
-		spec.InitialPacketSpec.InitialPackets = append(spec.InitialPacketSpec.InitialPackets, InitialPacketPlan{PacketSize: s})
-	}
-	return &VerifFlightPacker{up: newUPacketPacker(pp, spec), maxSize: protocol.ByteCount(maxSize)}
+	spec := &QUICSpec{InitialPacketSpec: InitialPacketSpec{FrameBuilder: fb, InitialPackets: plans}}
+	return &VerifFlightPacker{up: newUPacketPacker(pp, spec), ini: ini, maxSize: protocol.ByteCount(maxSize)}
 }
 
 // Budgets: MaxFrameBytes per datagram as planInitialFlight will compute them for a cryptoLen byte
@@ -211,6 +235,17 @@ func (f *VerifFlightPacker) Budgets(cryptoLen int) (maxFrameBytes []int, retrans
 // AFTER packing (offset, data) in registration order.
 func (f *VerifFlightPacker) Pack() (payload []byte, registered []VerifCF, packed bool, err error) {
 	pkt, err := f.up.PackCoalescedPacket(false, f.maxSize, monotime.Now(), protocol.Version1)
+	return f.record(pkt, err)
+}
+
+// Probe calls PackPTOProbePacket for the Initial packet number space (addPingIfEmpty as the
+// connection does); results as Pack.
+func (f *VerifFlightPacker) Probe() (payload []byte, registered []VerifCF, packed bool, err error) {
+	pkt, err := f.up.PackPTOProbePacket(protocol.EncryptionInitial, f.maxSize, true, monotime.Now(), protocol.Version1)
+	return f.record(pkt, err)
+}
+
+func (f *VerifFlightPacker) record(pkt *coalescedPacket, err error) (payload []byte, registered []VerifCF, packed bool, _ error) {
 	if err != nil || pkt == nil {
 		f.sent = append(f.sent, nil) // `Lose` addresses Pack calls
 		f.live = append(f.live, false)
